@@ -39,12 +39,13 @@ def model():
 
 ENV = dict(date=date, datetime=datetime, timedelta=timedelta,
            td_h=timedelta(hours=1), td_25h=timedelta(hours=25), td_neg=timedelta(minutes=-90), td_d=timedelta(days=30), td_ms=timedelta(milliseconds=250), td_us=timedelta(microseconds=5),
-           td_mix=timedelta(days=2, hours=5), p_dt=datetime(2020, 1, 2, 4, 4, 5), p_d=date(2020, 2, 1), p_dt_ms=datetime(2020, 2, 29, 12, 0, 0, 250000))
+           td_mix=timedelta(days=2, hours=5), td_nms=timedelta(milliseconds=-750), p_dt=datetime(2020, 1, 2, 4, 4, 5), p_d=date(2020, 2, 1), p_dt_ms=datetime(2020, 2, 29, 12, 0, 0, 250000))
 
 PROJ = [
     'e.d.year', 'e.d.month', 'e.d.day', 'e.dt.year', 'e.dt.month', 'e.dt.day', 'e.dt.hour', 'e.dt.minute', 'e.dt.second', 'e.dt.date()', 'e.d2.year', 'e.dt2.hour', 'e.dt2.date()', 'e.d', 'e.dt', 'e.dt2',
     'e.dt + timedelta(hours=1)', 'e.dt - timedelta(hours=1)', 'e.dt + timedelta(hours=25)', 'e.dt + timedelta(minutes=-90)', 'e.dt - timedelta(days=500)', 'e.dt + timedelta(seconds=1)',
     'e.dt + timedelta(milliseconds=250)', 'e.dt + timedelta(microseconds=5)', 'e.dt + timedelta(0)', 'e.dt2 + timedelta(hours=1)',
+    'e.dt + timedelta(milliseconds=-500)', 'e.dt - timedelta(milliseconds=500)', 'e.dt + timedelta(seconds=-1.5)', 'e.dt - timedelta(seconds=-0.25)', 'e.dt + timedelta(days=-1, milliseconds=1)', 'e.dt + td_nms',
     'e.dt + td_h', 'e.dt - td_h', 'e.dt + td_25h', 'e.dt + td_neg', 'e.dt + td_d', 'e.dt + td_ms', 'e.dt + td_us', 'e.dt2 - td_h',
     'e.d + timedelta(days=30)', 'e.d - timedelta(days=1)', 'e.d + timedelta(days=366)', 'e.d + timedelta(days=2, hours=5)', 'e.d - timedelta(days=2, hours=5)', 'e.d2 + timedelta(days=1)',
     'e.d + td_d', 'e.d - td_d', 'e.d + td_mix', 'e.d - td_mix', 'e.d2 + td_d',
